@@ -31,6 +31,7 @@ func (r *Run) probeReport(oracle, why string) {
 	if st == nil || r.ctx.Err() != nil {
 		return
 	}
+	r.probing = true
 	id := uint64(1 << 40)
 	p := &Part{ID: id, Lo: ip(0), Hi: ip(9), Forbidden: bp(false), S: sp("liveness-probe")}
 	r.parts[id] = p
